@@ -16,7 +16,16 @@ SCR = "/tmp/verif-seed-repo"
 WORK = os.environ.get("VERIF_SEED_WORK", os.path.join(ROOT, ".work-seed"))
 
 
-def run_one(sid, run_all):
+def expected_obligations(sid):
+    """Obligations named for this seed in mutants/index.json (entry `seed_<id>`), or None."""
+    idx = json.load(open(os.path.join(ROOT, "mutants", "index.json")))
+    for m in idx:
+        if m["name"] == "seed_" + sid:
+            return m.get("only") or m.get("expect")
+    return None
+
+
+def run_one(sid, run_all, fast=False):
     d = os.path.join(ROOT, "seeded", sid)
     meta = json.load(open(os.path.join(d, "meta.json")))
     prop = meta["property"]
@@ -35,7 +44,14 @@ def run_one(sid, run_all):
     # 1. the property's own check
     claimed = prop in json.load(open(os.path.join(ROOT, "contracts", "properties.json")))
     if claimed:
-        r = subprocess.run([os.path.join(ROOT, "check"), prop, "--tier", "quick"], cwd=ROOT, env=env, stdout=subprocess.PIPE, stderr=subprocess.PIPE, text=True)
+        cmd = [os.path.join(ROOT, "check"), prop, "--tier", "quick"]
+        exp = expected_obligations(sid) if fast else None
+        if exp:
+            # fast mode: only the obligations the self-test index names for this seed (a full property
+            # check of e.g. C01 on a changed tree re-runs ~50 harnesses, 10-20 min)
+            cmd += ["--only", ",".join(exp)]
+            out["only"] = exp
+        r = subprocess.run(cmd, cwd=ROOT, env=env, stdout=subprocess.PIPE, stderr=subprocess.PIPE, text=True)
         lines = [l for l in r.stdout.splitlines() if l.startswith(("VIOLATION", "UNDECIDED", "OK", "KNOWN"))]
         out["checks"][prop] = {"exit": r.returncode, "lines": lines}
         print(sid, "check", prop, "exit", r.returncode, *lines, sep="\n   ", flush=True)
@@ -49,7 +65,7 @@ def run_one(sid, run_all):
     for o in obs:
         rel = os.path.relpath(o["file"], os.path.join(ROOT, "contracts", "src")) if o["backend"] == "kani" else ""
         src = "src/" + rel[:-len(".verif.rs")] + ".rs" if rel.endswith(".verif.rs") else ""
-        if run_all or src in files or (o["backend"] == "verus" and any("lru" in f for f in files) and "lru" in o.get("verus_file", "")):
+        if run_all or (not fast and (src in files or (o["backend"] == "verus" and any("lru" in f for f in files) and "lru" in o.get("verus_file", "")))):
             want.append(o["id"])
     if want:
         r = subprocess.run([sys.executable, os.path.join(HERE, "runall.py"), "--tier", "quick"] + ([] if run_all else want),
@@ -73,5 +89,6 @@ def run_one(sid, run_all):
 if __name__ == "__main__":
     a = sys.argv[1:]
     run_all = "--all" in a
-    for sid in [x for x in a if x != "--all"]:
-        run_one(sid, run_all)
+    fast = "--fast" in a
+    for sid in [x for x in a if x not in ("--all", "--fast")]:
+        run_one(sid, run_all, fast)
